@@ -1422,7 +1422,14 @@ def run_script(live, lines, rng):
        @flush             deliver everything in order until the network is quiet
        @tick <s>          get_next_clock, advance the clock to the deadline, notify_clock
        @heal [max_ms]     loss-free suffix of a C09 run (readers read, clocks tick, applications close)
+       @stall-session <ms> k=v ...  (only line) a loss-free run whose reader stalls for <ms> (c09_stall_session)
     Every other line is an op.  Returns the Sess (ops = the concrete operations executed)."""
+    if lines and lines[0].startswith("@stall-session"):
+        # @stall-session <ms> k=v ...   a whole c09_stall_session with these socket parameters (rng seeded by the file name)
+        import random
+        w = lines[0].split()      # the directive line (with its `seed=` field) seeds the run: the witness does not depend on VERIF_SEED
+        return c09_stall_session(live, random.Random(lines[0]), int(w[1]),
+                                 params={k: int(v) for k, v in (x.split("=") for x in w[2:]) if k != "seed"})
     S = Sess(live, rng)
     for line in lines:
         if not S.alive():
